@@ -57,9 +57,24 @@ def describe_case(case):
         return {"network": case["net"], "netname": case.get("netname"), "k": case["k"], "mode": case["mode"],
                 "context": case["ctx"], "formulae": [core.Check.ftext(f) for f in case["formulas"]],
                 "tag": case.get("tag")}
-    return {"kind": case["kind"], "fields": [gen.unhx(x) if i >= 1 and "." in x or len(x) <= 2 else x
-                                            for i, x in enumerate(case["fields"])], "raw_fields": case["fields"],
-            "tag": case.get("tag")}
+    f = case["fields"]
+    def lst(x):
+        return [gen.unhx(y) for y in x.split(",")] if x else []
+    k = case["kind"]
+    if k in ("PARSE", "TOK"):
+        d = {"extended": f[0] == "1", "text": gen.unhx(f[1])}
+    elif k == "PREP":
+        d = {"extended": f[0] == "1", "propositions": lst(f[1]), "text": gen.unhx(f[2])}
+    elif k == "DUPS":
+        d = {"extended": f[0] == "1", "propositions": lst(f[1]), "formulae": lst(f[2])}
+    elif k == "CANON":
+        d = {"text": gen.unhx(f[0])}
+    elif k == "TREE":
+        d = {"sexpr": f[0], "text": gen.unhx(f[1])}
+    else:
+        d = {"fields": f}
+    d.update({"kind": k, "tag": case.get("tag")})
+    return d
 
 
 def main():
